@@ -1,7 +1,7 @@
 #!/venv/bin/python
 """Reach measure: which lines of canopen do the simulated runs of a check execute?
 
-usage: tools/linecov.py [-n RUNS] [ID ...]      (default: all claimed checks, 400 jobs each)
+usage: tools/linecov.py [--json OUT] [-n RUNS] [ID ...]      (default: all claimed checks, 400 jobs each)
 
 Runs the first RUNS/2 enumerated jobs and RUNS/2 seeded jobs of each check in
 this process under sys.settrace, collects (file, line) inside the canopen
@@ -44,6 +44,10 @@ def executable_lines(path):
 def main():
     args = sys.argv[1:]
     n = 400
+    dump = None
+    if args and args[0] == "--json":
+        dump = args[1]
+        args = args[2:]
     if args and args[0] == "-n":
         n = int(args[1])
         args = args[2:]
@@ -98,6 +102,10 @@ def main():
         per_check[pid] = sum(len(v - before.get(k, set())) for k, v in hit.items())
         print("%s: %d jobs traced, %d new lines" % (pid, len(idx), per_check[pid]), flush=True)
     print()
+    if dump:
+        import json
+        with open(dump, "w") as f:
+            json.dump({os.path.relpath(k, root): sorted(v) for k, v in hit.items()}, f)
     tot_e = tot_h = 0
     for dirpath, _, files in sorted(os.walk(root)):
         for f in sorted(files):
